@@ -43,7 +43,10 @@ func pppoeServerKind() kindDef {
 		cfgs:     []string{"no-radius", "radius"},
 		prefixes: func(string) []string { return []string{"PADS", "LCP", "AUTH", "IPCP"} },
 		paths: func(cfg, prefix string) []string {
-			p := []string{"PADT", "LCP-TR", "IDLE", "STOP"}
+			// RESTART-x: the client starts over (a second PADR from the same MAC without PADT, e.g. a CPE power
+			// cycle; the new session is brought up to the same prefix), then x ends every session the client was
+			// ever given (PADT / LCP Terminate-Request for each session id it knows; IDLE: it just falls silent)
+			p := []string{"PADT", "LCP-TR", "IDLE", "STOP", "RESTART-PADT", "RESTART-LCP-TR", "RESTART-IDLE"}
 			if cfg == "radius" {
 				p = append(p, "AUTHFAIL")
 			}
@@ -104,6 +107,13 @@ type pppClient struct {
 	addr      net.IP
 }
 
+// vicSess: one session of the victim as the client knows it (id from PADS) plus what it held.
+type vicSess struct {
+	c    *pppClient
+	sid  string // Session.SessionID: the pool key
+	addr net.IP
+}
+
 type pppWorld struct {
 	k      kase
 	srv    *pppoe.Server
@@ -113,6 +123,7 @@ type pppWorld struct {
 	aSess  *pppoe.Session // the victim's session object (kept after removal from the table)
 	aAddr  net.IP
 	aSID   string
+	vic    []*vicSess // every session the victim's MAC was ever given (a client that starts over has several)
 	viols  []viol
 	wait   func() // synctest.Wait in a bubble; nil under the controlled scheduler
 }
@@ -257,11 +268,7 @@ func runPPPoEServer(_ *kenv, k kase) (res result) {
 	w.establish(w.b, "IPCP")
 	w.a = &pppClient{name: "victim", mac: net.HardwareAddr{2, 0, 0, 0, 0, 0x0a}}
 	w.establish(w.a, k.Prefix)
-	w.aSess = w.session(w.a)
-	w.aSID = w.aSess.SessionID
-	if w.aSess.ClientIP != nil {
-		w.aAddr = append(net.IP{}, w.aSess.ClientIP.To4()...)
-	}
+	w.noteVictim()
 	h := []string{"session-entry"}
 	if w.aAddr != nil {
 		h = append(h, "pool-address")
@@ -282,6 +289,13 @@ func runPPPoEServer(_ *kenv, k kase) (res result) {
 			d1, n1 = w.dump(), w.nrec()
 			continue
 		}
+		if strings.HasPrefix(t, "RESTART-") {
+			// not a second ending of the same session but a new session life cycle of the same client:
+			// the release oracle applies again, the "nothing changes" comparison restarts from here
+			w.checkReleased(site, t)
+			d1, n1 = w.dump(), w.nrec()
+			continue
+		}
 		if d2 := w.dump(); d2 != d1 {
 			w.add("second-termination-changes-state", site, "state after %s differs from the state after %s: %s", site, k.Terms[0], diff(d1, d2))
 		}
@@ -297,6 +311,26 @@ func runPPPoEServer(_ *kenv, k kase) (res result) {
 	return
 }
 
+// noteVictim records the session the victim has just been given.
+func (w *pppWorld) noteVictim() {
+	se := w.session(w.a)
+	v := &vicSess{c: w.a, sid: se.SessionID}
+	if se.ClientIP != nil {
+		v.addr = append(net.IP{}, se.ClientIP.To4()...)
+	}
+	w.vic = append(w.vic, v)
+	if len(w.vic) == 1 {
+		w.aSess, w.aSID, w.aAddr = se, v.sid, v.addr
+	}
+}
+
+// restart: the victim's CPE starts over - a new PADR from the same MAC, no PADT for the old session.
+func (w *pppWorld) restart() {
+	w.a = &pppClient{name: "victim", mac: w.a.mac}
+	w.establish(w.a, w.k.Prefix)
+	w.noteVictim()
+}
+
 func (w *pppWorld) nrec() int {
 	if w.rs == nil {
 		return 0
@@ -305,16 +339,25 @@ func (w *pppWorld) nrec() int {
 }
 
 func (w *pppWorld) terminate(path string) {
-	a := w.a
+	if rest, ok := strings.CutPrefix(path, "RESTART-"); ok {
+		w.restart()
+		path = rest
+	}
 	switch path {
-	case "PADT":
-		w.srv.VerifC04Discovery(a.mac, pdisc(pppoe.CodePADT, a.sid))
+	case "PADT": // for every session id the client knows
+		for _, v := range w.vic {
+			w.srv.VerifC04Discovery(v.c.mac, pdisc(pppoe.CodePADT, v.c.sid))
+		}
 	case "LCP-TR":
-		a.ident++
-		w.sess(a, pppoe.ProtocolLCP, pcp(5, a.ident, nil))
+		for _, v := range w.vic {
+			v.c.ident++
+			w.sess(v.c, pppoe.ProtocolLCP, pcp(5, v.c.ident, nil))
+		}
 	case "AUTHFAIL":
-		a.ident++
-		w.sess(a, pppoe.ProtocolPAP, ppap(a.ident, a.name, "bad"))
+		for _, v := range w.vic {
+			v.c.ident++
+			w.sess(v.c, pppoe.ProtocolPAP, ppap(v.c.ident, v.c.name, "bad"))
+		}
 	case "IDLE":
 		// the victim falls silent; the bystander keeps its link alive with LCP echoes
 		for t := time.Duration(0); t <= pppoeIdle+30*time.Second; t += 30 * time.Second {
@@ -337,10 +380,12 @@ func (w *pppWorld) terminate(path string) {
 func (w *pppWorld) checkReleased(site, last string) {
 	avail, alloc := w.srv.VerifC16Pool().VerifC16State()
 	// O1: the address
-	if ip, ok := alloc[w.aSID]; ok {
-		w.add("address-not-released", site, "the pool still has %s allocated to the victim's session %s", ip, w.aSID)
-	} else if w.aAddr != nil && !contains(avail, w.aAddr.String()) {
-		w.add("address-not-released", site, "%s is neither free nor allocated", w.aAddr)
+	for i, v := range w.vic {
+		if ip, ok := alloc[v.sid]; ok {
+			w.add("address-not-released", site, "the pool still has %s allocated to the victim's session %s (session #%d of %d the client was given)", ip, v.sid, i+1, len(w.vic))
+		} else if v.addr != nil && !contains(avail, v.addr.String()) {
+			w.add("address-not-released", site, "%s is neither free nor allocated", v.addr)
+		}
 	}
 	if len(avail)+len(alloc) != pppoeTotal {
 		w.add("pool-conservation", site, "pool accounts for %d addresses, has %d (available=%v allocated=%v)", len(avail)+len(alloc), pppoeTotal, avail, alloc)
@@ -359,8 +404,8 @@ func (w *pppWorld) checkReleased(site, last string) {
 		seen[a] = true
 	}
 	// the session itself: it may only linger if it is closed and holds nothing
-	if s := w.session(w.a); s != nil {
-		if s.GetState() != pppoe.StateClosed {
+	for _, v := range w.vic {
+		if s := w.session(v.c); s != nil && s.GetState() != pppoe.StateClosed {
 			w.add("session-still-present", site, "the victim's session %d is still in the table in state %s", s.ID, s.GetState())
 		}
 	}
@@ -426,7 +471,9 @@ func (w *pppWorld) probe(site string) {
 	if len(got) != pppoeTotal-1 {
 		w.add("probe-conservation", site, "new sessions obtained %d distinct addresses, %d should be free: %v", len(got), pppoeTotal-1, got)
 	}
-	if w.aAddr != nil && got[w.aAddr.String()] == 0 {
-		w.add("probe-address-not-obtainable", site, "no new session was given the victim's former address %s: %v", w.aAddr, got)
+	for _, v := range w.vic {
+		if v.addr != nil && got[v.addr.String()] == 0 {
+			w.add("probe-address-not-obtainable", site, "no new session was given the victim's former address %s: %v", v.addr, got)
+		}
 	}
 }
